@@ -398,3 +398,72 @@ Fixpoint hash_stmt (s : stmt) (h : Z) {struct s} : Z :=
 Fixpoint hash_stmts (l : list stmt) (h : Z) : Z :=
   match l with [] => mix h 91 | x :: r => hash_stmts r (hash_stmt x h) end.
 Definition tree_hash (p : list stmt) : Z := hash_stmts p 7%Z.
+
+(* ------------------------------------------------------------------ PSy-layer region names *)
+(* PSyDataTrans.get_unique_region_name (called by LFRicExtractTrans / GOceanExtractTrans.apply):
+   region name = invoke name [":" kernel name if the region holds exactly one kernel] ":r" idx,
+   idx = how many names with the same (module | name-without-index) key were issued before
+   (class-level dict _used_kernel_names).  One PSy module per file, so the module is left out. *)
+Definition pkey := (nat * option nat)%type.        (* invoke, Some k = exactly one kernel k *)
+Definition pkey_eqb (a b : pkey) : bool :=
+  Nat.eqb (fst a) (fst b) && option_beq Nat.eqb (snd a) (snd b).
+Definition base_of (inv : nat) (kerns : list nat) : pkey :=
+  (inv, match kerns with [k] => Some k | _ => None end).
+Definition count_key (k : pkey) (hist : list pkey) : nat := length (filter (pkey_eqb k) hist).
+
+(* names issued for a sequence of requests (invoke, kernels of the region), in application order *)
+Fixpoint issue (hist : list pkey) (reqs : list (nat * list nat)) : list (pkey * nat) :=
+  match reqs with
+  | [] => []
+  | (inv, ks) :: r => let b := base_of inv ks in (b, count_key b hist) :: issue (b :: hist) r
+  end.
+
+(* PSyDataNode.gen_code (LFRic): a region without a stored name is named at generation time,
+   idx = its position among ALL PSyData nodes of the file in pre-order (self.root.walk);
+   PSyDataNode.lower_to_language_level (GOcean): module = the invoke routine, "r" idx with idx =
+   position among the PSyData regions of that routine. *)
+Inductive pscheme := PSUser (u : nat) | PSIssued (k : nat) | PSGen.
+Inductive pname :=
+| PNUser (u : nat)
+| PNInvoke (b : pkey) (i : nat)          (* (psy module, "<invoke>[:<kern>]:r<i>") *)
+| PNLocal (inv : nat) (i : nat).         (* ("<invoke>", "r<i>")  -- GOcean lowering *)
+Definition pnode := (nat * list nat * pscheme)%type.     (* invoke, kernels inside, naming scheme *)
+
+Definition pname_eqb (a b : pname) : bool :=
+  match a, b with
+  | PNUser x, PNUser y => Nat.eqb x y
+  | PNInvoke k i, PNInvoke k' i' => pkey_eqb k k' && Nat.eqb i i'
+  | PNLocal v i, PNLocal v' i' => Nat.eqb v v' && Nat.eqb i i'
+  | _, _ => false
+  end.
+
+Definition issued_name (issued : list (pkey * nat)) (k : nat) : pname :=
+  match nth_error issued k with Some (b, i) => PNInvoke b i | None => PNUser 0 end.
+
+(* LFRic: global pre-order position *)
+Fixpoint lfric_names_from (i : nat) (issued : list (pkey * nat)) (nodes : list pnode) : list pname :=
+  match nodes with
+  | [] => []
+  | (inv, ks, s) :: r =>
+      (match s with
+       | PSUser u => PNUser u
+       | PSIssued k => issued_name issued k
+       | PSGen => PNInvoke (base_of inv ks) i
+       end) :: lfric_names_from (S i) issued r
+  end.
+Definition lfric_file_names (reqs : list (nat * list nat)) (nodes : list pnode) : list pname :=
+  lfric_names_from 0 (issue [] reqs) nodes.
+
+(* GOcean: position among the regions of the same invoke routine *)
+Fixpoint gocean_names_from (seen : list nat) (issued : list (pkey * nat)) (nodes : list pnode) : list pname :=
+  match nodes with
+  | [] => []
+  | (inv, ks, s) :: r =>
+      (match s with
+       | PSUser u => PNUser u
+       | PSIssued k => issued_name issued k
+       | PSGen => PNLocal inv (length (filter (Nat.eqb inv) seen))
+       end) :: gocean_names_from (inv :: seen) issued r
+  end.
+Definition gocean_file_names (reqs : list (nat * list nat)) (nodes : list pnode) : list pname :=
+  gocean_names_from [] (issue [] reqs) nodes.
